@@ -154,8 +154,10 @@ func (p *parserDoer) doParseProfile() {
 			close(p.res)
 			return
 		}
-		p.res <- &model.ParserResponse{
-			ProfileRequest: p.profile,
+		if len(p.profile.TimestampNs) > 0 {
+			p.res <- &model.ParserResponse{
+				ProfileRequest: p.profile,
+			}
 		}
 
 		close(p.res)
@@ -259,8 +261,7 @@ func (p *parserDoer) onProfile(timestampNs uint64,
 
 	if p.profile.Size > 1*1024*1024 {
 		p.res <- &model.ParserResponse{
-			SpansRequest:      p.spans,
-			SpansAttrsRequest: p.attrs,
+			ProfileRequest: p.profile,
 		}
 		p.resetProfile()
 	}
